@@ -57,10 +57,33 @@ func TestSlowConsumer(t *testing.T) {
 				}
 			}
 		}
+		// with repeats, every fifth source is submitted again straight away and a third time at the end: every submission is
+		// a query of its own and gets an answer of its own, however many answers for that source are still waiting to be read
+		repeats := rapid.SampledFrom([]bool{false, false, true}).Draw(t, "repeated-submissions")
+		var subs []gostatsd.Source
+		distinct := n
+		for i := 0; i < distinct; i++ {
+			s := gostatsd.Source(fmt.Sprintf("10.7.%d.%d", i/200, i%200))
+			subs = append(subs, s)
+			if repeats && i%5 == 0 {
+				subs = append(subs, s)
+			}
+		}
+		if repeats {
+			for i := 0; i < distinct; i += 5 {
+				subs = append(subs, gostatsd.Source(fmt.Sprintf("10.7.%d.%d", i/200, i%200)))
+			}
+			desc += fmt.Sprintf(" repeated-submissions (%d submissions)", len(subs))
+		}
+		n = len(subs)
+		submitted := map[gostatsd.Source]int{}
 		var srcs []gostatsd.Source
 		for i := 0; i < n; i++ {
-			s := gostatsd.Source(fmt.Sprintf("10.7.%d.%d", i/200, i%200))
-			srcs = append(srcs, s)
+			s := subs[i]
+			if submitted[s] == 0 {
+				srcs = append(srcs, s)
+			}
+			submitted[s]++
 			select {
 			case ccp.IpSink() <- s:
 			case <-time.After(30 * time.Second):
@@ -96,8 +119,13 @@ func TestSlowConsumer(t *testing.T) {
 		}
 		prov.mu.Lock()
 		said := map[gostatsd.Source]*gostatsd.Instance{}
+		saidAny := map[gostatsd.Source]map[*gostatsd.Instance]bool{}
 		for _, a := range prov.answers {
 			said[a.ip] = a.inst
+			if saidAny[a.ip] == nil {
+				saidAny[a.ip] = map[*gostatsd.Instance]bool{}
+			}
+			saidAny[a.ip][a.inst] = true
 		}
 		calls := len(prov.calls)
 		for _, c := range prov.calls {
@@ -110,19 +138,26 @@ func TestSlowConsumer(t *testing.T) {
 		seen := map[gostatsd.Source]int{}
 		for _, a := range got {
 			seen[a.ip]++
+			if repeats && submitted[a.ip] > 1 {
+				// asked about several times: the answer is one of the things the provider said about it (or nothing)
+				if a.inst != nil && !saidAny[a.ip][a.inst] {
+					vt.Fail(t, "C12:answer-wrong", "answer for %q carries %v, which the provider never said (%s)", a.ip, a.inst, desc)
+				}
+				continue
+			}
 			if a.inst != said[a.ip] {
 				vt.Fail(t, "C12:answer-wrong", "answer for %q carries %v, the provider said %v (%s)", a.ip, a.inst, said[a.ip], desc)
 			}
 		}
 		var bad []string
 		for _, s := range srcs {
-			if seen[s] != 1 {
-				bad = append(bad, fmt.Sprintf("%s x%d", s, seen[s]))
+			if seen[s] != submitted[s] {
+				bad = append(bad, fmt.Sprintf("%s submitted x%d answered x%d", s, submitted[s], seen[s]))
 			}
 		}
 		sort.Strings(bad)
 		if len(bad) > 0 {
-			vt.Fail(t, "C12:answer-missing", "not exactly one answer per submitted source: %s (%s)", strings.Join(bad, ", "), desc)
+			vt.Fail(t, "C12:answer-missing", "not exactly one answer per submission: %s (%s)", strings.Join(bad, ", "), desc)
 		}
 		ev.C().Case(fmt.Sprintf("S|%s|%d", desc, calls), n >= 33, "slow-consumer", fmt.Sprintf("slow-consumer-sources=%d", n))
 		if ev.C().WantSample() {
